@@ -213,7 +213,7 @@ def harnesses(tier):
 
 ORACLES = [
     {'name': 'small-scope rule files in most_specific mode against a hand-keyed ranking specification (all orders of each rule set)',
-     'script': 'C09.py', 'bound': 'all ordered rule lists of length <= 3 (quick) / 4 (thorough) over a pool of 23 rules with hand-written keys (7 of them differing in ranking only), 8 transactions; legacy CSV in most_specific mode'},
+     'script': 'C09.py', 'bound': 'all ordered rule lists of length <= 3 (quick) / <= 3 and a 1-in-8 sample of length 4 (thorough) over a pool of 26 rules with hand-written keys (8 of them differing in ranking only), 8 transactions; legacy CSV in most_specific mode'},
 ]
 TRUSTED_BASE = [
     'pyvc symbolic executor', 'z3 5.1.0 / cvc5 1.0.3',
